@@ -2,7 +2,7 @@
    Model: PL.Rainflow.Model (hand-written, tied to the code by the correspondence check of harness/props/c01.py).
    Only statements, `exact`, Print Assumptions. *)
 From Coq Require Import ZArith List Bool.
-From PL Require Import Rainflow.Model Rainflow.Eqb Rainflow.ChunkThm Rainflow.ChunkFKM Rainflow.Chunk4 Rainflow.Bounded.
+From PL Require Import Rainflow.Model Rainflow.Eqb Rainflow.ChunkThm Rainflow.ChunkFKM Rainflow.Chunk4 Rainflow.Chunk3 Rainflow.Bounded.
 Import ListNotations.
 Open Scope Z_scope.
 
@@ -41,8 +41,22 @@ Theorem fourpoint_chunked (cs : list (list Z)) :
   c1 = c2 /\ r1 = r2 /\ i1 = i2.
 Proof. exact (Chunk4.fourpoint_chunked cs). Qed.
 
-(* four-/three-point detectors: bounded instances (every signal over {0..3} of length <= 7, EVERY partition);
-   the unbounded statements are [fourpoint_chunked_statement] / [threepoint_chunked_statement] below *)
+(* three-point detector: the same, unbounded.  The next chunk restarts the Cython loop from the stored residual
+   with highest/lowest front recomputed by argmax/argmin over it.  Proof: refinement of the loop to an item-level
+   machine that keeps the values of the two fronts and the number of stack entries below each (Refine3); on
+   alternating input the stack is a strictly diverging part whose top two entries are the two extremes, followed
+   by a strictly converging part (TPInv.Inv, inductive); for such a stack the recomputed fronts are the ones the
+   one-piece run holds (or differ only in what examining the top repairs), pushing the residual again closes
+   nothing, and the provisional last sample closes a prefix of what the next turning point closes (Chunk3). *)
+Theorem threepoint_chunked (cs : list (list Z)) :
+  cs <> [] -> Forall (fun C => C <> []) cs ->
+  let '(c1, r1, i1, _) := run3 cs in let '(c2, r2, i2, _) := run3 [concat cs] in
+  c1 = c2 /\ r1 = r2 /\ i1 = i2.
+Proof. exact (Chunk3.threepoint_chunked cs). Qed.
+
+(* four-/three-point detectors: bounded instances (every signal over {0..3} of length <= 7, EVERY partition),
+   kept as an independent evaluation of the model; [fourpoint_chunked_statement] / [threepoint_chunked_statement]
+   are the same claims in boolean form *)
 Definition fourpoint_chunked_statement : Prop := forall cs,
   cs <> [] -> Forall (fun C => C <> []) cs -> eqobs_nochunks (run4 cs) (run4 [concat cs]) = true.
 Definition threepoint_chunked_statement : Prop := forall cs,
@@ -61,6 +75,9 @@ Theorem threepoint_chunked_bounded cs :
 Proof. exact (Bounded.threepoint_chunked_bounded cs). Qed.
 
 (* non-vacuity: a chunked signal with closed cycles, a plateau and a chunk border inside the plateau *)
+Example chunked_example3 :
+  run3 [[0; 2; 1]; [1; 3]; [0; 1; 0; 4]] = ([(2, 1, 1%nat, 2%nat); (0, 1, 5%nat, 6%nat); (3, 0, 4%nat, 7%nat)], [0; 4], [0%nat; 8%nat], [3%nat; 2%nat; 4%nat]).
+Proof. vm_compute. reflexivity. Qed.
 Example chunked_example :
   run4 [[0; 2; 1]; [1; 3]; [0; 1; 0; 4]] = ([(2, 1, 1%nat, 2%nat); (0, 1, 5%nat, 6%nat); (3, 0, 4%nat, 7%nat)], [0; 4], [0%nat; 8%nat], [3%nat; 2%nat; 4%nat]).
 Proof. vm_compute. reflexivity. Qed.
@@ -68,6 +85,7 @@ Proof. vm_compute. reflexivity. Qed.
 Print Assumptions new_turns_chunked.
 Print Assumptions fkm_chunked.
 Print Assumptions fourpoint_chunked.
+Print Assumptions threepoint_chunked.
 Print Assumptions recorder_chunks_4pt.
 Print Assumptions recorder_chunks_3pt.
 Print Assumptions chunk_local_index_correct.
